@@ -2,6 +2,16 @@
 HOOK_COMMITS = []
 NOT_APPLICABLE = {}
 CLAIMS = {
+    "C08": dict(
+        text="spec/Geometry.tla accumulates the public motions (translation, rotation by the Pythagorean angle atan2(4,3) about coordinate axes through rational centres, reflections) as an exact rational affine map; TLC enumerates "
+        "every sequence of up to 1 (quick) / 2 (thorough) motions and checks that the map stays an isometry with the right parity. Every frame is replayed on unstructured meshes of the integer pentagon (2-D, also moved out of the plane "
+        "as an embedded surface) and its extrusion for every listed element type: node coordinates equal A X + b, measure unchanged, the boundary normals integrate to zero and to dim x measure against the position vector, and a nodal "
+        "polynomial field of the element's order evaluated at the exactly moved query points (interior, on an edge, on vertices, nodes; batch, single, pair) returns the polynomial.",
+        note="Trusted: TLC for the exact frames and query points; gmsh meshes (general straight-sided quadrangles / hexahedra). Serendipity types are asked for degree 1 only. Two recorded findings (orientation of the normals in 2-D, "
+        "base face of extruded 3-D meshes) are reproduced on every run and reported as KNOWN-FINDING; closure and flux magnitude remain checked.",
+        technique="TLA+ exact group action enumerated by TLC; each frame replayed on real meshes (direction A)",
+        design_ref="DESIGN.md 6/C08",
+    ),
     "C09": dict(
         text="spec/Loads.tla enumerates (dimension, load kind {line, surface, volume, pressure, concentrated}, region {edges, faces, a 3-D edge, the bulk of the integer box}, polynomial density of degree 0-2 per direction, thickness, "
         "value form {constant, function of position, nodal array}, stray interior nodes in the selection, node listed twice) and computes resultant and first moments in exact rationals (monomial integrals over intervals). Each TLC state is "
